@@ -186,6 +186,59 @@ def generate(repo):
         defs.append("Definition interaction_gen {T : Type} (N : Num T) (cut2_max : T) (p f_n1_pos f_n2_pos f_n3_pos fnormal : vec3 T) (area rep : T) (t1 t2 : nat) : option (vec3 T * vec3 T * vec3 T * vec3 T) :=\n"
                     "  let t1_is_0 := Nat.eqb t1 0 in let t2_is_1 := Nat.eqb t2 1 in let t1_is_3 := Nat.eqb t1 3 in let t2_is_0 := Nat.eqb t2 0 in\n"
                     "  let k := kernel N p f_n1_pos f_n2_pos f_n3_pos in let min_squared_distance := k_dist k in let bary_pos := k_bary k in\n  %s." % g)
+        # ---------------- aabb_intersection_check: three guarded `return false`, then `return true`
+        ab = function_body(abs_, r"bool\s+contact_model_abstract::aabb_intersection_check\s*\(\s*const\s+size_t\s+face_aabb_pos\s*,\s*const\s+vec3\s*&\s*node_pos\s*\)\s*const\s*noexcept\s*\{")
+        st3 = split_statements(ab)
+        if len(st3) != 4 or [x[0] for x in st3] != ["if", "if", "if", "stmt"] or st3[3][1] != "return true":
+            raise Tr("aabb_intersection_check: shape")
+        conds = []
+        slot = rx_sub([(r"face_aabb_lst_\[face_aabb_pos\s*\]", "lo_x"), (r"face_aabb_lst_\[face_aabb_pos \+ 1\]", "lo_y"), (r"face_aabb_lst_\[face_aabb_pos \+ 2\]", "lo_z"),
+                       (r"face_aabb_lst_\[face_aabb_pos \+ 3\]", "hi_x"), (r"face_aabb_lst_\[face_aabb_pos \+ 4\]", "hi_y"), (r"face_aabb_lst_\[face_aabb_pos \+ 5\]", "hi_z")])
+        benv = {k: "d" for k in ("lo_x", "lo_y", "lo_z", "hi_x", "hi_y", "hi_z")}; benv["node_pos"] = "v"
+        for x in st3[:3]:
+            if x[3] is not None or [y[1] for y in as_list(x[2])] != ["return false"]:
+                raise Tr("aabb_intersection_check: a guard does not return false")
+            g, _ = parse(slot(re.sub(r"\s+", " ", x[1])), benv, "b"); conds.append(g)
+        defs.append("Definition in_box_gen {T : Type} (N : Num T) (b : @box T) (node_pos : vec3 T) : bool :=\n"
+                    "  let lo_x := vx (b_lo b) in let lo_y := vy (b_lo b) in let lo_z := vz (b_lo b) in let hi_x := vx (b_hi b) in let hi_y := vy (b_hi b) in let hi_z := vz (b_hi b) in\n"
+                    "  if %s then false else if %s then false else if %s then false else true." % tuple(conds))
+        # ---------------- resolve_all_contacts: which nodes search, where they look, which faces they try; the centring of coupled pairs
+        rb = function_body(src, r"void\s+contact_node_node_via_coupling::resolve_all_contacts\s*\(\s*const\s+std::vector<cell_ptr>\s*&\s*cell_lst\s*\)\s*noexcept\s*\{")
+        rf = flat(rb)
+        m = re.search(r"constdoublesurface_coupling_max_curvature=c1->get_cell_type\(\)->surface_coupling_max_curvature_;for\(node&n:c1->node_lst_\)\{if\((.*?)\)\{constunsignedvoxel_1_x=", rf)
+        if not m:
+            raise Tr("resolve_all_contacts: head of the loop over the nodes")
+        cond = re.search(r"for\s*\(\s*node\s*&\s*n\s*:\s*c1->node_lst_\s*\)\s*\{\s*if\s*\((.*?)\)\s*\{\s*const unsigned voxel_1_x", re.sub(r"\s+", " ", rb)).group(1)
+        g, _ = parse(rx_sub([(r"n\.is_used\(\)", "used"), (r"n\.curvature_", "curv"), (r"surface_coupling_max_curvature", "maxcurv")])(cond), {"used": "b", "curv": "d", "maxcurv": "d"}, "b")
+        defs.append("Definition node_active_gen {T : Type} (N : Num T) (used : bool) (curv maxcurv : T) : bool := %s." % g)
+        import translate_grid as tg
+        vox = []
+        for ax in "xyz":
+            mm = re.search(r"const unsigned voxel_1_%s = (.*?);" % ax, re.sub(r"\s+", " ", rb))
+            if not mm:
+                raise Tr("resolve_all_contacts: voxel of the node along " + ax)
+            e_ = mm.group(1).replace("n.pos().d%s()" % ax, "pos_" + ax).replace("grid_.min_%s_" % ax, "min_%s_" % ax).replace("grid_.voxel_size_", "voxel_size_")
+            e_ = re.sub(r"^std::floor\((.*)\)$", r"static_cast<unsigned>(std::floor(\1))", e_)       # an unsigned initialised from a floor: the same conversion
+            ge, te = tg.E(tg.tokenize(e_), {"pos_" + ax: "d", "min_%s_" % ax: "d", "voxel_size_": "d"}).sum()
+            if te != "z":
+                raise Tr("voxel index type")
+            vox.append(ge)
+        defs.append("Definition node_voxel_gen {T : Type} (N : Num T) (floorZ : T -> Z) (g : @dims T) (p : vec3 T) : Z * Z * Z :=\n"
+                    "  let '(min_x_, min_y_, min_z_) := d_lo g in let voxel_size_ := d_s g in let pos_x := vx p in let pos_y := vy p in let pos_z := vz p in\n  (%s, %s, %s)." % tuple(vox))
+        if "constsize_tvoxel_id=grid_.get_voxel_index(voxel_1_x,voxel_1_y,voxel_1_z);" not in rf or "for(face*f:grid_.voxel_lst_[voxel_id]){" not in rf:
+            raise Tr("resolve_all_contacts: the candidate faces are not the content of the node's own voxel")
+        m = re.search(r"cell_ptrc2=f->get_owner_cell\(\);if\(c1->get_id\(\)!=c2->get_id\(\)\)\{if\((.*?)\)\{resolve_contact\(c1,c2,n,f\);\}\}", rf)
+        if not m:
+            raise Tr("resolve_all_contacts: guards of resolve_contact")
+        if m.group(1) != "aabb_intersection_check(f->global_face_id_*6,n.pos())&&n.normal_.dot(f->normal_)<max_dot_product_repulsion_":
+            raise Tr("resolve_all_contacts: box test and facing test: " + m.group(1))
+        defs.append("Definition try_guard_gen {T : Type} (N : Num T) (c90 : T) (b : @box T) (n_pos n_normal f_normal : vec3 T) : bool :=\n  in_box_gen N b n_pos && nltb N (vdot N n_normal f_normal) c90.")
+        # the second loop: coupled pairs with c1_id > c2_id are moved to their centre point
+        if "if(n1.coupled_node_.has_value()){constauto[c2_id,n2_id]=n1.coupled_node_.value();if(c1_id>c2_id){" not in rf or "n1.pos_.reset(center_point);n2.pos_.reset(center_point);" not in rf:
+            raise Tr("resolve_all_contacts: centring of the coupled pairs")
+        mm = re.search(r"const vec3 center_point = (.*?);", re.sub(r"\s+", " ", rb))
+        g, _ = parse(mm.group(1).replace("n1.pos()", "p1").replace("n2.pos()", "p2"), {"p1": "v", "p2": "v"}, "v")
+        defs.append("Definition centre_point_gen {T : Type} (N : Num T) (p1 p2 : vec3 T) : vec3 T := %s." % g)
     except Exception as e:      # noqa
         err = str(e)
     L = ["(* Narrow_gen.v — GENERATED by harness/translate_narrowphase.py from /repo/src/contact_models/contact_node_node_via_coupling.cpp and", "   contact_model_abstract.cpp on every run.  Do not edit. *)",
